@@ -9,6 +9,10 @@ BUILD = os.path.join(VERIF, ".build")
 HARNESS = os.path.join(VERIF, "harness")
 GOENV = dict(os.environ, GOFLAGS="-mod=mod", GOWORK="off", GOPROXY="off", GOSUMDB="off",
              GOTOOLCHAIN="local", CGO_CFLAGS="-w")
+# VERIF_COVER=1: development aid (tools/anchor_coverage.py) - harness and commands are built with Go's coverage
+# instrumentation of the repository's packages and every process they start writes its counters to $GOCOVERDIR
+COVER = bool(os.environ.get("VERIF_COVER"))
+COVER_FLAGS = "-cover -coverpkg=./..."
 FORBIDDEN = re.compile(r"\b(Admitted|admit|Axiom|Axioms|Parameter|Parameters|Conjecture|Conjectures|"
                        r"Admit Obligations|Unset Guard Checking|bypass_check|Unset Positivity Checking|"
                        r"Unset Universe Checking|type-in-type|impredicative-set)\b")
@@ -208,11 +212,25 @@ class Ctx:
         for fn in os.listdir(src):
             if fn.endswith(".go") and (fn == "main.go" or fn.startswith("common") or fn.startswith(pid)):
                 shutil.copyfile(os.path.join(src, fn), os.path.join(dd, fn))
+        if COVER:
+            # coverage instrumentation only reaches the packages of the module being built: the harness is compiled as a
+            # command of a SCRATCH copy of the repository (REPO is a throw-away worktree made by tools/anchor_coverage.py)
+            assert not REPO.startswith("/repo"), "VERIF_COVER needs VERIF_REPO = a scratch worktree"
+            zz = os.path.join(REPO, "cmd", "zz_verif_vh")
+            shutil.rmtree(zz, ignore_errors=True)
+            shutil.copytree(dd, zz)
+            out = os.path.join(BUILD, "vh_%s_cov_%s" % (pid, tag))
+            env = dict(os.environ, GOPROXY="off", GOSUMDB="off", GOTOOLCHAIN="local", CGO_CFLAGS="-w", GOFLAGS="")
+            rc, so, se, dt = sh("go build -tags verif -cover -coverpkg=./... -o %s ./cmd/zz_verif_vh" % out, cwd=REPO, env=env, timeout=1500)
+            if rc != 0:
+                return None, filter_go_noise(se)
+            self.vh_bin = out
+            return out, None
         gomod = open(os.path.join(HARNESS, "go.mod")).read().replace("=> /repo", "=> " + REPO)
         open(os.path.join(d, "go.mod"), "w").write(gomod)
         shutil.copyfile(os.path.join(REPO, "go.sum"), os.path.join(d, "go.sum"))
-        out = os.path.join(BUILD, "vh_%s%s_%s" % (pid, "_race" if race else "", tag))
-        cmd = "go build -tags verif %s -o %s ./cmd/vh" % ("-race" if race else "", out)
+        out = os.path.join(BUILD, "vh_%s%s%s_%s" % (pid, "_race" if race else "", "_cov" if COVER else "", tag))
+        cmd = "go build -tags verif %s %s -o %s ./cmd/vh" % ("-race" if race else "", COVER_FLAGS if COVER else "", out)
         rc, so, se, dt = sh(cmd, cwd=d, env=GOENV, timeout=1500)
         self.cov["harness_build_s"] = round(dt, 1)
         if rc != 0:
@@ -223,11 +241,11 @@ class Ctx:
 
     def build_cmds(self, names, race=False):
         """Build obitools commands from /repo's working tree with the verif tag into .build/bin."""
-        d = os.path.join(BUILD, ("bin_race_" if race else "bin_") + hashlib.sha1(REPO.encode()).hexdigest()[:8])
+        d = os.path.join(BUILD, ("bin_race_" if race else "bin_cov_" if COVER else "bin_") + hashlib.sha1(REPO.encode()).hexdigest()[:8])
         os.makedirs(d, exist_ok=True)
         pk = " ".join("./cmd/obitools/" + n for n in names)
         env = dict(os.environ, GOPROXY="off", GOSUMDB="off", GOTOOLCHAIN="local", CGO_CFLAGS="-w", GOFLAGS="")
-        rc, so, se, dt = sh("go build -tags verif %s -o %s/ %s" % ("-race" if race else "", d, pk), cwd=REPO, env=env, timeout=1500)
+        rc, so, se, dt = sh("go build -tags verif %s %s -o %s/ %s" % ("-race" if race else "", COVER_FLAGS if COVER else "", d, pk), cwd=REPO, env=env, timeout=1500)
         if rc != 0:
             return None, filter_go_noise(se)
         return d, None
